@@ -3087,6 +3087,13 @@ MODULES = {
                                                           "is_range", "match_char_set", "deriv_class")],
         # is_atomic / is_singleton / is_simple_pattern feed only Display and dead code: no model counterpart, not translated
     },
+    "FastSetGen": {
+        "files": ["fast_sets.rs"],
+        "types": ["FastSet", "FastSetIterator"],
+        "consts": [],
+        "functions": [("FastSet", None, f) for f in ("new", "card", "contains", "insert", "remove", "reset", "iter")]
+                     + [("FastSetIterator", "Iterator", "next")],
+    },
     "PartitionGen": {
         "files": ["character_sets.rs", "smt_strings.rs", "errors.rs"],
         "types": ["CharSet", "CoverResult", "ClassId", "Error", "CharPartition", "ClassIdIterator", "PickIterator"],
